@@ -32,7 +32,7 @@ func genC19(r *rand.Rand) c19Case {
 	nh := 1 + r.IntN(4)
 	seen := map[string]bool{}
 	for len(c.Combos) < nh {
-		cb := pick(r, []string{"-", "1", "2", "3"}) + "|" + pick(r, []string{"-", "1", "2"})
+		cb := pick(r, []string{"-", "1", "2", "3", "caf\xe9", "\xff\xfe"}) + "|" + pick(r, []string{"-", "1", "2"})
 		if !seen[cb] {
 			seen[cb] = true
 			c.Combos = append(c.Combos, cb)
@@ -42,6 +42,17 @@ func genC19(r *rand.Rand) c19Case {
 		c.PostEach = 3 + r.IntN(5)
 	}
 	return c
+}
+
+// c19Prefix: a third of the alphabets use URIs with percent-encoded non-ASCII octets
+func c19Prefix(c c19Case) string {
+	switch (c.U + len(c.Combos) + len(c.Policy)) % 3 {
+	case 0:
+		return "/caf%C3%A9"
+	case 1:
+		return "/q%E9%FF"
+	}
+	return ""
 }
 
 func c19Vary(policy string, k int) (vary []string, distinct int) {
@@ -171,11 +182,11 @@ func c19Run(r *run.Runner, c c19Case) {
 				if c.DtS > 0 {
 					time.Sleep(time.Duration(c.DtS * float64(time.Second)))
 				}
-				w.Do(sim.ReqSpec{URL: fmt.Sprintf("http://a.example/u%d", u), Header: h})
+				w.Do(sim.ReqSpec{URL: fmt.Sprintf("http://a.example%s/u%d", c19Prefix(c), u), Header: h})
 				r.AddEvaluations(1)
 				req++
 				if c.PostEach > 0 && req%c.PostEach == 0 {
-					w.Do(sim.ReqSpec{URL: fmt.Sprintf("http://a.example/u%d", u), Method: "POST"})
+					w.Do(sim.ReqSpec{URL: fmt.Sprintf("http://a.example%s/u%d", c19Prefix(c), u), Method: "POST"})
 				}
 				// keep the log short
 				if len(w.Exchanges) > 4 {
@@ -213,6 +224,7 @@ func TestC19Invalidation(t *testing.T) {
 			"method": pick(rng, []string{"POST", "PUT", "DELETE", "PATCH", "PROPPATCH", "FOO"}), "status": pick(rng, []int{200, 201, 204, 302}),
 			"location": pick(rng, []string{"", "/other", "http://a.example/other", "http://A.EXAMPLE:80/other#x"}), "loc_header": pick(rng, []string{"Location", "Content-Location"}),
 			"spelling": rng.IntN(len(fuzzSpellings)), "validated_before": chance(rng, 0.3),
+			"external_delete": chance(rng, 0.3), "nonascii": pick(rng, []string{"", "", "/caf%C3%A9", "/q%E9"}),
 		}
 		r.Begin(i, c)
 		fail := r.Bubble(func() {
@@ -234,19 +246,29 @@ func TestC19Invalidation(t *testing.T) {
 				return Render(&RespSpec{Status: 200, CC: []string{"max-age=10"}, ETag: `"e"`, Vary: vary, BodySize: 5}, uc.Enter, uc.Serial)
 			}})
 			defer w.Close()
+			na := c["nonascii"].(string)
 			for v := 0; v < c["variants"].(int); v++ {
 				h := map[string][]string{"X-A": {fmt.Sprint(v)}, "X-B": {fmt.Sprint(v % 2)}}
-				w.Do(sim.ReqSpec{URL: "http://a.example/r1", Header: h})
+				w.Do(sim.ReqSpec{URL: "http://a.example" + na + "/r1", Header: h})
 				if c["location"].(string) != "" {
 					w.Do(sim.ReqSpec{URL: "http://a.example/other", Header: h})
 				}
 			}
 			if c["validated_before"].(bool) {
 				time.Sleep(20 * time.Second)
-				w.Do(sim.ReqSpec{URL: "http://a.example/r1", Header: map[string][]string{"X-A": {"0"}, "X-B": {"0"}}})
+				w.Do(sim.ReqSpec{URL: "http://a.example" + na + "/r1", Header: map[string][]string{"X-A": {"0"}, "X-B": {"0"}}})
+			}
+			if c["external_delete"].(bool) {
+				// one stored response disappears behind the cache's back (maintenance API, clean-up job)
+				for _, k := range w.Store.FootprintKeys() {
+					if strings.Contains(k, "/r1") && strings.Contains(k, "#") {
+						w.Store.Delete(k)
+						break
+					}
+				}
 			}
 			before := len(w.Store.Footprint())
-			ex := w.Do(sim.ReqSpec{URL: fuzzSpellings[c["spelling"].(int)]("/r1"), Method: c["method"].(string)})
+			ex := w.Do(sim.ReqSpec{URL: fuzzSpellings[c["spelling"].(int)](na + "/r1"), Method: c["method"].(string)})
 			w.Settle(ex, 0)
 			fp := w.Store.FootprintKeys()
 			r.Count("keys_before_invalidation", before)
